@@ -18,7 +18,8 @@ Tolerances (relative, floor = norm of the initial state):
     flow is unitary so the global error is the sum of the local ones; both
     steppers take fewer than 20 steps per unit of ||H|| t (measured: the error
     is <= 2e-7 per unit, see notes/C18.md).  A flat 1e-6 cannot be met with a
-    100x margin by the unchanged code (observed 4e-6 at ||H|| t = 60).
+    100x margin by the unchanged code (observed 4e-6 at ||H|| t = 60).  For H(t) = H0 + f(t) H1 the
+    frequency of the drive max|f'|/max|f| is added to ||G|| (the steppers must resolve it too).
 The reported ``err`` is normalised: max over points of err / tol(point) times
 the nominal tolerance of the method (1e-6 resp. 1e-10).
 """
@@ -179,7 +180,7 @@ def apply_U(U, p0):
 class Ctx:
     """Everything the oracle needs about one evolution."""
 
-    def __init__(self, Hd, p0, t0, method_eff, info, prop=None, hnorm=None):
+    def __init__(self, Hd, p0, t0, method_eff, info, prop=None, hnorm=None, rate_extra=0.0):
         self.Hd = Hd
         self.p0 = p0
         self.t0 = float(t0)
@@ -189,6 +190,7 @@ class Ctx:
         self.info = info  # small classification dict put into every Violation
         self.hnorm = float(np.linalg.norm(Hd, 2)) if hnorm is None else float(hnorm)
         self.n0 = float(np.linalg.norm(p0))
+        self.rate_extra = float(rate_extra)  # rate of change of H(t) itself (time dependent case), same units as ||H||
         self.prop = prop  # optional t -> reference state (time dependent H)
         self.timeindep = prop is None
         self.worst = 0.0  # max err / tol
@@ -202,7 +204,7 @@ class Ctx:
     def tol(self, t):
         if self.meth == "integrate":
             # generator of the flow: -iH for kets, the commutator -i[H, .] (norm <= 2||H||) for density operators
-            gen = self.hnorm * (2.0 if self.isdop else 1.0)
+            gen = self.hnorm * (2.0 if self.isdop else 1.0) + self.rate_extra
             return TOL_INT * max(1.0, STEPS_PER_UNIT * gen * abs(float(t) - self.t0))
         return TOL_EXACT
 
@@ -825,12 +827,15 @@ def run_timedep(case):
         t = t + float(dt)
         times.append(t)
     tgrid = np.linspace(t0, max(times[-1], t0 + 1e-9), 64)
-    fmax = float(np.max(np.abs(orc.f(tgrid))))
+    fvals = np.asarray(orc.f(tgrid), dtype=float)
+    fmax = float(np.max(np.abs(fvals)))
     hbound = float(np.linalg.norm(H0, 2) + fmax * np.linalg.norm(H1, 2))
+    # the steppers also have to resolve the time dependence itself: add its frequency max|f'|/max|f| to the rate
+    wf = float(np.max(np.abs(np.gradient(fvals, tgrid)))) / fmax if fmax > 0 else 0.0
     sd = case["state"]
     info = dict(method="integrate", state=sd["kind"], sform=sd["form"], hrep="timedep-" + case["ret"], d=d,
                 stepper="dopri5" if case["small"] else "dop853")
-    ctx = Ctx(H0, p0, t0, "integrate", info, prop=lambda tt: apply_U(orc.U(tt), p0), hnorm=hbound)
+    ctx = Ctx(H0, p0, t0, "integrate", info, prop=lambda tt: apply_U(orc.U(tt), p0), hnorm=hbound, rate_extra=wf)
     sparse = case["ret"] == "sparse"
 
     def ham(tt):
